@@ -151,8 +151,9 @@ theorem C02_generated_reopen (kt : KeyType) (n : Nat) (hn : 0 < n) (hn2 : n < 2^
   exact ⟨d1, d2, d3, hgen, ho, hd2.1.trans hd1.1.symm, hd2.2.1.trans hd1.2.1.symm,
     hd2.2.2.trans hd1.2.2.symm, hgen3⟩
 
-/-- **C15 for the translated code**: `get`, `includes_key`, `len`, a full traversal and every
-statistics call leave all three files byte for byte as they were -/
+/-- **C15 for the translated code**: `get`, `includes_key`, `len` and the statistics calls leave all
+three files byte for byte as they were (the traversal: `C04_generated_iter`; whole sessions:
+`C15_generated_session`) -/
 theorem C15_generated_readonly {kt : KeyType} {s : Store} (g : Store.Regular kt s)
     (hlen : Gen.htxInitLen s.n ≤ s.htxEnd) (k : List Nat) (hk : KeyOK kt k) {d : DbSt} (hd : d.IsImage kt s) :
     (∃ r d', Gen.getKt s.n (cmpOf kt) (hashValue k) k d = some (r, d') ∧ d'.IsImage kt s) ∧
